@@ -38,6 +38,9 @@ type judgeCtx struct {
 	lcalls []*Call // lifecycle calls sorted by Inv
 	limits []limSeg
 	deqEvs []deqEv // successful dequeues by dispatcher tasks, in order (built on demand)
+	// a Resume/Restart invoked while the asynchronous stop of a cancelled context was still
+	// under way: a resumer racing a stop (DESIGN 11.4, 25) - what runs afterwards is its leftover
+	raceCancelAt uint64
 }
 
 type limSeg struct {
@@ -132,6 +135,9 @@ func (j *judgeCtx) buildLife() {
 		}
 		if !isLifecycle(c.K) {
 			continue
+		}
+		if pendingStop && (c.K == opResume || c.K == opRestart) && j.raceCancelAt == 0 {
+			j.raceCancelAt = c.Inv
 		}
 		i := li
 		li++
@@ -1142,7 +1148,7 @@ func (j *judgeCtx) checkCounters() {
 		case 2:
 			if c.Val < 0 {
 				j.add("C17.a", c.Ret, "NumProcessing() = %d (negative)", c.Val)
-			} else if lim := j.maxLimit(j.oldestInflight(c.Inv), c.Ret); c.Val > lim {
+			} else if lim := j.maxLimit(j.oldestSlot(c.Inv), c.Ret); c.Val > lim {
 				j.add("C17.b", c.Ret, "NumProcessing() = %d exceeds the concurrency limit %d", c.Val, lim)
 			}
 		case 5:
@@ -1172,6 +1178,23 @@ func (j *judgeCtx) notifiesBy(seq uint64) int {
 		}
 	}
 	return n
+}
+
+// oldestSlot is oldestInflight for readers of the processing counter. A counted slot need
+// not belong to a function invocation at all: it is taken before the dequeue (and given
+// back when a purge took the job meanwhile) and released some steps after the function
+// returned. None of that is observable, so the window reaches back to the last quiescent
+// point at which nothing was in flight (every slot is settled there), or to the start.
+func (j *judgeCtx) oldestSlot(seq uint64) uint64 {
+	o := uint64(0)
+	for _, c := range j.r.calls {
+		if (c.K == opSettle || (c.K == opSample && c.AtRest)) && c.Ret != 0 && c.Ret < seq && j.inflightAt(c.Inv) == 0 && !(c.K == opSettle && c.Val2 != 0) {
+			if c.Inv > o {
+				o = c.Inv
+			}
+		}
+	}
+	return o
 }
 
 func (j *judgeCtx) oldestInflight(seq uint64) uint64 {
@@ -1606,6 +1629,17 @@ func (j *judgeCtx) checkBatches() {
 			}
 		}
 		if b.gj != nil || fuzzy {
+			continue
+		}
+		// a drained batch: its stream is consumed (and finally closed) by the library, what a
+		// reader of ours still gets is unspecified
+		drained := false
+		for _, c := range j.r.calls {
+			if c.K == opBatchDrain && c.Batch == b.idx {
+				drained = true
+			}
+		}
+		if drained {
 			continue
 		}
 		// stream content
